@@ -19,6 +19,7 @@
 #include <chrono>
 #include <clocale>
 #include <cstdlib>
+#include <cstring>
 #include <cstdlib>
 #include <deque>
 #include <fstream>
@@ -729,6 +730,15 @@ void do_markup(std::ostream &out, toks &t)
         auto const b = unhex(t.str());
         std::string const txt(b.begin(), b.end());
         pr_string(out, encode(std::span<char const>(txt.data(), txt.size())));
+    }
+    else if (op == "encodearr")
+    {
+        // markup held in a fixed-size character buffer and passed as the array itself
+        // (whatever overload or conversion the library offers for it)
+        auto const b = unhex(t.str());
+        char buf[32] = {};
+        std::memcpy(buf, b.data(), std::min<size_t>(b.size(), 31));
+        pr_string(out, encode(buf));
     }
     else if (op == "ets")
     {
